@@ -4,8 +4,10 @@
 // virtual (cocls_verif/pthread_shim.h), so "take the lock", "wake up in the wait" and "join" are
 // scheduling points with exact enabledness.  Lock grain: atomics are not scheduling points.
 //
-// header: {"script":["co","fn","stop",...], "workers":N}
-// projection: {"enabled":[threads],"exit":bool,"jobs":{"1":{"by":thread,"st":pending|running|ran|cancelled}},
+// header: {"script":["co","fn","stop",...], "workers":N, "second":bool (a second client thread "d" calls stop())}
+// Nested submissions (a job whose body submits to the same pool) have the id parent + script length (grandchild:
+// + 2 * script length), see ThreadPool.tla.
+// projection: {"enabled":[threads],"exit":bool,"jobs":{"1":{"by":thread,"fut":none|pending|value|exception|broken,"st":pending|running|ran|cancelled}},
 //              "pend":{thread:..},"qlen":n,"wdone":[workers]}
 #include <cocls/thread_pool.h>
 #include <cocls/async.h>
@@ -36,6 +38,9 @@ struct Rec {
     cocls::future<int> *awfut = nullptr;
     cocls::promise<int> *awp = nullptr;
     int target = 0;     // kinds "rvj"/"rv": the aw job whose future is resolved
+    bool late_fut = false;  // run(async) of a coroutine with nested submissions: the future is resolved by the LAST leg
+    int expect = 0;         // value the future must carry
+    bool has_fut = false;   // the submission returns a future (reported as pending until the submission is made)
 };
 
 struct World;
@@ -54,17 +59,21 @@ struct World {
     std::vector<std::string> script;
     int nworkers = 1;
     int form = 0;                   // rotation of equivalent API forms (header "form")
+    bool second = false;            // a second client thread "d" (managed thread nworkers + 1, spawned once the pool exists)
     std::map<int, Rec> recs;        // job id (1-based position in script) -> record
     vsched sched;
     std::vector<cocls::async<void>> keep;
 };
 
-static std::string thread_name(int id) { return id == 0 ? "c" : "w" + std::to_string(id); }
+static std::string thread_name(World &w, int id) { return id == 0 ? "c" : (w.second && id == w.nworkers + 1) ? "d" : "w" + std::to_string(id); }
 
-static std::string cur_thread_name(World &) {
+static std::string cur_thread_name(World &w) {
     auto *me = vsched::self();
-    return me ? thread_name(me->id) : "unmanaged";
+    return me ? thread_name(w, me->id) : "unmanaged";
 }
+
+// thrown by the jobs of kind "fnx" / "asx"
+struct JobThrow { int j; };
 
 static void job_begin(World &w, int j) { Rec &r = w.recs[j]; r.started++; r.by = cur_thread_name(w); }
 static void job_end(World &w, int j) { w.recs[j].finished++; }
@@ -82,6 +91,13 @@ static cocls::async<void> co_job(World &w, int j) {
 static cocls::async<int> asy_job(World &w, int j) {
     job_begin(w, j);
     job_end(w, j);
+    co_return j;
+}
+
+static cocls::async<int> asx_job(World &w, int j) {
+    job_begin(w, j);
+    job_end(w, j);
+    throw JobThrow{j};
     co_return j;
 }
 
@@ -113,19 +129,122 @@ static cocls::async<void> res_job(World &w, int j) {
     co_return;
 }
 
+// ---- jobs with nested submissions -------------------------------------------------------------------------------
+static const char *child_kind(const std::string &k) {
+    if (k == "asn" || k == "acu" || k == "con") return "co";
+    if (k == "as2") return "con";
+    if (k == "asr") return "fna";
+    if (k == "fnn") return "fn";
+    if (k == "dtn") return "det";
+    return nullptr;
+}
+
+// co_await <pool awaiter> issued by the leg `leg` of a job (0: by the client): when await_suspend() of the library's
+// awaiter has returned, the leg is over -- the coroutine is suspended and control goes back to whoever ran the leg.
+// The coroutine may already be running (or be finished and destroyed) on another worker by then: nothing of the
+// coroutine frame (this awaiter included) is touched after the inner call.
+template<typename Inner>
+struct Hop {
+    World *w;
+    int leg;
+    bool *not_suspended;    // set when await_ready() says so (may be null)
+    Inner inner;
+    bool await_ready() {
+        bool r = inner.await_ready();
+        if (r && not_suspended) *not_suspended = true;
+        return r;
+    }
+    auto await_suspend(std::coroutine_handle<> h) {
+        World *pw = w;
+        int l = leg;
+        if constexpr (std::is_void_v<decltype(inner.await_suspend(h))>) {
+            inner.await_suspend(h);
+            if (l) job_end(*pw, l);
+        } else {
+            auto r = inner.await_suspend(h);
+            if (r && l) job_end(*pw, l);
+            return r;
+        }
+    }
+    decltype(auto) await_resume() { return inner.await_resume(); }
+};
+
+// a coroutine that hands itself over to the pool `hops` times.  started_by_pool: the coroutine is started by the pool
+// (pool.run(async)), its first leg is the submission j itself; otherwise the client starts it and the first hop is j.
+// Submission ids: j, j + N, j + 2N.  use_current: the hops go through thread_pool::current.
+static cocls::async<int> chain_job(World &w, int j, int hops, bool started_by_pool, bool use_current) {
+    int N = (int) w.script.size();
+    int leg = 0, id = j;
+    if (started_by_pool) { job_begin(w, id); leg = id; id += N; }
+    for (int k = 0; k < hops; k++) {
+        bool cancelled = false, inl = false;
+        try {
+            if (use_current) {
+                using Inner = cocls::thread_pool::current::current_awaiter;
+                co_await Hop<Inner>{&w, leg, &inl, cocls::thread_pool::current().operator co_await()};
+            } else {
+                using Inner = cocls::thread_pool::co_awaiter;
+                co_await Hop<Inner>{&w, leg, &inl, w.pool->operator co_await()};
+            }
+        } catch (const cocls::await_canceled_exception &) {
+            cancelled = true;
+        }
+        if (cancelled) {
+            // (the previous leg ends when its await_suspend() returns, possibly after this)
+            w.recs[id].cancelled++;
+            co_return j;
+        }
+        // not suspended at all (thread_pool::current on a stopped pool): the previous leg ends here
+        if (inl && leg) job_end(w, leg);
+        job_begin(w, id);
+        leg = id;
+        id += N;
+    }
+    job_end(w, leg);
+    co_return j;
+}
+
+// pool.run(async) of a coroutine that submits a function to the pool and awaits its result: co_await pool.run(fn)
+static cocls::async<int> asr_job(World &w, int j) {
+    int n = j + (int) w.script.size();
+    World *pw = &w;
+    job_begin(w, j);
+    cocls::future<int> f = w.pool->run([pw, n] { job_begin(*pw, n); job_end(*pw, n); return n; });
+    try {
+        using Inner = decltype(f.operator co_await());
+        int v = co_await Hop<Inner>{pw, j, nullptr, f.operator co_await()};
+        if (v != n) w.recs[n].started += 100;   // reported as "twice"
+    } catch (const cocls::await_canceled_exception &) {
+        w.recs[n].cancelled++;
+    }
+    if (!w.recs[j].finished) job_end(w, j);
+    co_return j;
+}
+
+static std::string fut_state(World &w, int j) {
+    Rec &r = w.recs[j];
+    if (!r.has_fut) return r.fut ? "unexpected" : "none";
+    if (!r.fut || !r.fut->ready()) return "pending";
+    try { return r.fut->value() == r.expect ? "value" : "wrong_value"; }
+    catch (const cocls::await_canceled_exception &) { return "broken"; }
+    catch (const JobThrow &e) { return e.j == r.expect ? "exception" : "wrong_exception"; }
+    catch (...) { return "other_exception"; }
+}
+
 static std::string job_state(World &w, int j) {
     Rec &r = w.recs[j];
     bool cancelled = r.cancelled > 0;
     if (r.fut && r.fut->ready()) {
         try { (void) r.fut->value(); }
         catch (const cocls::await_canceled_exception &) { cancelled = true; }
+        catch (const JobThrow &) {}
         catch (...) { return "other_exception"; }
     }
     if (r.started > 1 || r.finished > 1 || r.cancelled > 1) return "twice";
     if (cancelled && r.started) return "ran_and_cancelled";
     if (cancelled) return "cancelled";
     if (r.finished) {
-        if (r.fut && !r.fut->ready()) return "ran_future_pending";
+        if (r.fut && !r.late_fut && !r.fut->ready()) return "ran_future_pending";
         return "ran";
     }
     if (r.started) return "running";
@@ -146,17 +265,32 @@ static std::string pend_of(World &w, int t) {
     }
 }
 
+// ThreadPool.tla Target(): the "aw" element (1-based position, 0: none) whose future the "rvj" / "rv" element at position p
+// resolves: a run of "rvj" is paired in order with the "aw" elements that follow, a run of "rv" with those that precede
+static int target_of(const std::vector<std::string> &sc, int p) {
+    const std::string &k = sc[p - 1];
+    int rank = 0;
+    for (int m = p - 1; m >= 1 && sc[m - 1] != "aw"; m--) if (sc[m - 1] == k) rank++;
+    if (k == "rvj") {
+        for (int m = p + 1; m <= (int) sc.size(); m++) if (sc[m - 1] == "aw" && rank-- == 0) return m;
+    } else if (k == "rv") {
+        for (int m = p - 1; m >= 1; m--) if (sc[m - 1] == "aw" && rank-- == 0) return m;
+    }
+    return 0;
+}
+
 static J project(World &w) {
     J m = J::map();
     J pend = J::map(), enabled = J::list(), wdone = J::list();
     for (std::size_t t = 0; t < w.sched.nthreads(); t++) {
-        std::string n = thread_name((int) t);
+        std::string n = thread_name(w, (int) t);
         pend.set(n, pend_of(w, (int) t));
         if (w.sched.enabled((int) t)) enabled.push(n);
-        if (t > 0 && w.sched.done((int) t)) wdone.push(n);
+        if (t > 0 && n != "d" && w.sched.done((int) t)) wdone.push(n);
     }
     // workers not created yet (before CBegin) are reported the way the specification starts them
-    for (int i = (int) w.sched.nthreads(); i <= w.nworkers; i++) pend.set(thread_name(i), "pre:start");
+    for (int i = (int) w.sched.nthreads(); i <= w.nworkers; i++) pend.set(thread_name(w, i), "pre:start");
+    if (w.second && (int) w.sched.nthreads() <= w.nworkers + 1) pend.set("d", "pre:mark");
     enabled.sort_as_set();
     wdone.sort_as_set();
     m.set("pend", pend);
@@ -174,6 +308,7 @@ static J project(World &w) {
         J r = J::map();
         r.set("st", job_state(w, kv.first));
         r.set("by", kv.second.by);
+        r.set("fut", fut_state(w, kv.first));
         jobs.set(std::to_string(kv.first), r);
     }
     m.set("jobs", jobs);
@@ -189,8 +324,7 @@ static void client(World &w) {
         if (k == "stop") { w.pool->stop(); continue; }
         if (k == "rv") {
             vsched::mark("rv");
-            int tg = 0;
-            for (int m = j - 1; m >= 1 && !tg; m--) if (w.script[m - 1] == "aw") tg = m;
+            int tg = target_of(w.script, j);
             if (tg) (*w.recs[tg].awp)(tg);
             continue;
         }
@@ -201,21 +335,54 @@ static void client(World &w) {
         } else if (k == "fn") {
             r->fut = reinterpret_cast<cocls::future<int> *>(r->fut_mem);
             new (r->fut_mem) cocls::future<int>(w.pool->run([pw, j] { job_begin(*pw, j); job_end(*pw, j); return j; }));
+        } else if (k == "fnx") {
+            r->fut = reinterpret_cast<cocls::future<int> *>(r->fut_mem);
+            new (r->fut_mem) cocls::future<int>(w.pool->run([pw, j]() -> int { job_begin(*pw, j); job_end(*pw, j); throw JobThrow{j}; }));
         } else if (k == "det") {
             w.pool->run_detached([pw, j, g = std::make_unique<Guard>(r)] { g->called = true; job_begin(*pw, j); job_end(*pw, j); });
         } else if (k == "wst") {
             w.pool->run_detached([pw, j, g = std::make_unique<Guard>(r)] { g->called = true; job_begin(*pw, j); pw->pool->stop(); job_end(*pw, j); });
-        } else if (k == "asy") {
+        } else if (k == "asy" || k == "asx" || k == "asn" || k == "as2" || k == "acu" || k == "asr") {
             r->fut = reinterpret_cast<cocls::future<int> *>(r->fut_mem);
+            // a coroutine with nested submissions resolves the future in its last leg
+            r->late_fut = k != "asy" && k != "asx";
+            auto make = [&]() -> cocls::async<int> {
+                if (k == "asy") return asy_job(w, j);
+                if (k == "asx") return asx_job(w, j);
+                if (k == "asr") return asr_job(w, j);
+                return chain_job(w, j, k == "as2" ? 2 : 1, true, k == "acu");
+            };
             if ((j + w.form) % 2 == 0) {
-                new (r->fut_mem) cocls::future<int>(w.pool->run(asy_job(w, j)));
+                new (r->fut_mem) cocls::future<int>(w.pool->run(make()));
             } else {
                 // the lvalue overload, with the caller's coroutine object destroyed as soon as run() has returned (a local
                 // of a function that returns the future): the queued work must own everything it needs
-                auto c = std::make_unique<cocls::async<int>>(asy_job(w, j));
+                auto c = std::make_unique<cocls::async<int>>(make());
                 new (r->fut_mem) cocls::future<int>(w.pool->run(*c));
                 c.reset();
             }
+        } else if (k == "con") {
+            chain_job(w, j, 2, false, false).detach();
+        } else if (k == "dtn") {
+            int n = j + (int) w.script.size();
+            Rec *rn = &w.recs[n];
+            w.pool->run_detached([pw, j, n, rn, g = std::make_unique<Guard>(r)] {
+                g->called = true; job_begin(*pw, j);
+                pw->pool->run_detached([pw, n, g = std::make_unique<Guard>(rn)] { g->called = true; job_begin(*pw, n); job_end(*pw, n); });
+                job_end(*pw, j);
+            });
+        } else if (k == "fnn") {
+            int n = j + (int) w.script.size();
+            Rec *rn = &w.recs[n];
+            r->fut = reinterpret_cast<cocls::future<int> *>(r->fut_mem);
+            new (r->fut_mem) cocls::future<int>(w.pool->run([pw, j, n, rn] {
+                job_begin(*pw, j);
+                // the function keeps the future of its own submission and returns without waiting for it
+                rn->fut = reinterpret_cast<cocls::future<int> *>(rn->fut_mem);
+                new (rn->fut_mem) cocls::future<int>(pw->pool->run([pw, n] { job_begin(*pw, n); job_end(*pw, n); return n; }));
+                job_end(*pw, j);
+                return j;
+            }));
         } else if (k == "res") {
             cocls::suspend_point<void> sp = res_job(w, j).detach();
             w.pool->resume(std::move(sp));
@@ -238,13 +405,28 @@ static void run(const Scenario &sc, Reporter &rep) {
     for (auto &x : sc.hdr.at("script").l) w.script.push_back(x.s);
     w.nworkers = (int) sc.hdr.at("workers").as_int(1);
     w.form = (int) sc.hdr.at("form").as_int(0);
+    w.second = sc.hdr.at("second").as_bool(false);
     for (std::size_t i = 0; i < w.script.size(); i++) if (w.script[i] != "stop" && w.script[i] != "rv") w.recs[(int) i + 1].kind = w.script[i];
+    {   // records of the nested submissions (created up front: the map is not modified while the threads run)
+        int N = (int) w.script.size();
+        for (int lvl = 1; lvl <= 2; lvl++)
+            for (int i = 1; i <= N; i++) {
+                auto it = w.recs.find((lvl - 1) * N + i);
+                if (it == w.recs.end()) continue;
+                if (const char *ck = child_kind(it->second.kind)) w.recs[lvl * N + i].kind = ck;
+            }
+        for (auto &kv : w.recs) {
+            kv.second.expect = kv.first;
+            const std::string &kd = kv.second.kind;
+            kv.second.has_fut = kd == "fn" || kd == "asy" || kd == "fnn" || kd == "fnx" || kd == "asx" || kd == "asn" || kd == "as2" || kd == "acu" || kd == "asr";
+        }
+    }
     for (auto &kv : w.recs) {
         if (kv.second.kind == "aw") {
             kv.second.awfut = new cocls::future<int>();
             kv.second.awp = new cocls::promise<int>(kv.second.awfut->get_promise());
         } else if (kv.second.kind == "rvj") {
-            for (std::size_t m = (std::size_t) kv.first; m < w.script.size() && !kv.second.target; m++) if (w.script[m] == "aw") kv.second.target = (int) m + 1;
+            kv.second.target = target_of(w.script, kv.first);
         }
     }
     w.sched.lock_grain = true;
@@ -254,8 +436,8 @@ static void run(const Scenario &sc, Reporter &rep) {
     bool bad = false;
     for (std::size_t k = 0; k < sc.steps.size() && !bad; k++) {
         const Step &st = sc.steps[k];
-        std::string tn = st.name[0] == 'C' ? "c" : st.sarg(0);
-        int t = tn == "c" ? 0 : atoi(tn.c_str() + 1);
+        std::string tn = st.name[0] == 'C' ? "c" : st.name[0] == 'D' ? "d" : st.sarg(0);
+        int t = tn == "c" ? 0 : tn == "d" ? w.nworkers + 1 : atoi(tn.c_str() + 1);
         if (t >= (int) w.sched.nthreads()) { rep.diverge(k, "thread " + tn + " does not exist in the implementation"); bad = true; break; }
         if (!w.sched.enabled(t)) {
             rep.diverge(k, "thread not enabled in the implementation (" + std::string(w.sched.done(t) ? "finished" : "blocked") + ") got=" + project(w).dump());
@@ -263,6 +445,9 @@ static void run(const Scenario &sc, Reporter &rep) {
             break;
         }
         w.sched.step(t);
+        // the second client thread comes into being when the pool exists (its workers are the managed threads 1..n)
+        if (st.name == "CBegin" && w.second && (int) w.sched.nthreads() == w.nworkers + 1)
+            w.sched.spawn([pw] { vsched::mark("dbegin"); pw->pool->stop(); });
         if (!rep.check(k, project(w))) bad = true;
     }
     bool drained = w.sched.drain();
